@@ -19,13 +19,12 @@ From Coq Require Import Lia.
 
 (* ---------- backends ---------- *)
 
-(* MetaData(stream, dict) denotes the stream *)
+(* MetaData(x, dict) denotes x: whenever the backend gives such a call a value it is the value of x, and it does give
+   one when x is a sequence (a stream).  (Stated this way - not "for every value" - so that it is compatible with
+   backends that give no meaning to function calls on dictionary records, C02's [backend_ok].) *)
 Definition md_identity (B : backend) : Prop :=
-  forall v d kws, fun_sem B "MetaData" [v; d] kws = Some v.
-
-(* a result-format terminal denotes the stream it is given (how it is written out is not part of the meaning) *)
-Definition terminals_identity (B : backend) : Prop :=
-  forall node v args, fun_sem B node (v :: args) [] = Some v.
+  (forall v d kws r, fun_sem B "MetaData" [v; d] kws = Some r -> r = v) /\
+  (forall l d kws, fun_sem B "MetaData" [VList l; d] kws = Some (VList l)).
 
 (* the dataset the query is run on *)
 Definition dataset (B : backend) (data : list value) : Prop :=
@@ -112,13 +111,13 @@ Section RemoveSem.
           destruct (ev E x0) as [s|]; cbn [obind] in Hv; [|discriminate].
           cbn [mk_view av_val sequence] in Hv.
           destruct (ev E x1) as [d|]; cbn [obind] in Hv; [|discriminate].
-          rewrite Hmd in Hv. exact Hv.
+          rewrite (proj1 Hmd _ _ _ _ Hv). reflexivity.
         * unfold omap in Hv at 1. cbn [map sequence] in Hv.
           destruct (ev E x0) as [s|]; cbn [obind] in Hv; [|discriminate].
           destruct (ev E x1) as [d|]; cbn [obind] in Hv; [|discriminate].
           destruct (omap (ev E) kwv); cbn [obind] in Hv; [|discriminate].
           destruct (zip_kw (k :: kwn) l); cbn [obind] in Hv; [|discriminate].
-          rewrite Hmd in Hv. exact Hv.
+          rewrite (proj1 Hmd _ _ _ _ Hv). reflexivity.
   Qed.
 
   Theorem remove_sem e e' :
@@ -186,11 +185,11 @@ Section Node.
   Definition md_evaluable (d : expr) : Prop := exists dv, forall E, ev E d = Some dv.
 
   Lemma eval_md_wrap E ds : md_identity B -> Forall md_evaluable ds ->
-    forall src v, ev E src = Some v -> ev E (md_wrap src ds) = Some v.
+    forall src l, ev E src = Some (VList l) -> ev E (md_wrap src ds) = Some (VList l).
   Proof.
-    intros Hmd H. induction H as [|d ds [dv Hd] _ IH]; intros src v Hsrc; [exact Hsrc|].
+    intros Hmd H. induction H as [|d ds [dv Hd] _ IH]; intros src l Hsrc; [exact Hsrc|].
     cbn [md_wrap]. apply IH. unfold function_call. cbn [eval map].
-    rewrite apply_op_md, Hsrc. cbn [obind mk_view av_val sequence]. rewrite (Hd E). cbn [obind]. apply Hmd.
+    rewrite apply_op_md, Hsrc. cbn [obind mk_view av_val sequence]. rewrite (Hd E). cbn [obind]. apply (proj2 Hmd).
   Qed.
 End Node.
 
@@ -385,8 +384,9 @@ Section Chain.
 
   Definition terminal_nodes : list string := map (fun t => snd (fst t)) terminals.
 
+  (* a result-format terminal denotes the stream it is given (how it is written out is not part of the meaning) *)
   Definition terminals_ok : Prop :=
-    forall node v args, In node terminal_nodes -> fun_sem B node (v :: args) [] = Some v.
+    forall node l args, In node terminal_nodes -> fun_sem B node (VList l :: args) [] = Some (VList l).
 
   Lemma find_node_in tbl m node spec :
     find_node tbl m = Some (node, spec) -> In node (map (fun t => snd (fst t)) tbl).
@@ -431,8 +431,8 @@ Section Chain.
     intros H. repeat (destruct H as [<- | H]; [reflexivity|]). destruct H.
   Qed.
 
-  Lemma terminal_sem E t src q v :
-    terminals_ok -> terminal_node t src = Some q -> ev E src = Some v -> ev E q = Some v.
+  Lemma terminal_sem E t src q l :
+    terminals_ok -> terminal_node t src = Some q -> ev E src = Some (VList l) -> ev E q = Some (VList l).
   Proof.
     intros Ht Hn Hsrc. destruct (terminal_node_inv _ _ _ Hn) as (node & vs & -> & Hin).
     unfold function_call. cbn [eval]. rewrite (apply_op_terminal _ _ _ Hin), Hsrc. cbn [obind]. clear Hn.
